@@ -32,31 +32,26 @@ def runSw : List SwCall → SectionWriter → List String
 def showRefOut (o : RefOut) : String :=
   s!"{o.n}/{o.err.getD "nil"}" ++ (match o.ucall with | none => "" | some (off, len) => s!"/{off}/{len}/ok")
 
-/-- a call is inside the domain of the reference machine when the position it asks for is an int64 -/
-def swInDomain : List SwCall → RefSW → Bool
-  | [], _ => true
-  | c :: r, s =>
-    match c with
-    | .seek offset whence =>
-      let target := offset + (if whence = 0 then s.base else if whence = 1 then s.off else s.limit)
-      (whence < 0 || whence > 2 || target ≤ maxOffset) && swInDomain r (s.seek offset whence).1
-    | .write plen ans => swInDomain r (s.write plen ans.accept ans.fail).1
-    | _ => swInDomain r s
+def toRefCall : SwCall → RefCall
+  | .write plen ans => .write plen ans.accept ans.fail
+  | .writeAt plen off ans => .writeAt plen off ans.accept ans.fail
+  | .seek offset whence => .seek offset whence
+  | .size => .size
 
-/-- reference machine outputs, and the confinement clause checked on them -/
-def runRef : List SwCall → RefSW → List String × Bool
-  | [], _ => ([], true)
-  | c :: r, s =>
-    let (s', o) : RefSW × RefOut := match c with
-      | .write plen ans => s.write plen ans.accept ans.fail
-      | .writeAt plen off ans => (s, s.writeAt plen off ans.accept ans.fail)
-      | .seek offset whence => s.seek offset whence
-      | .size => (s, ⟨s.limit - s.base, none, none⟩)
-    let confined := match o.ucall with
+/-- confinement clause, checked on the reference machine's own underlying calls -/
+def refConfined (s : RefSW) : List RefCall → Bool
+  | [] => true
+  | c :: r =>
+    let (s', o) := s.step c
+    (match o.ucall with
       | none => true
-      | some (off, len) => len == 0 || (decide (s.base ≤ off) && decide (off + len ≤ s.limit))
-    let (outs, ok) := runRef r s'
-    (showRefOut o :: outs, confined && ok)
+      | some (off, len) => len == 0 || (decide (s.base ≤ off) && decide (off + len ≤ s.limit))) && refConfined s' r
+
+def runRef (calls : List SwCall) (s : RefSW) : List String × Bool :=
+  let rc := calls.map toRefCall
+  ((s.run rc).map showRefOut, refConfined s rc)
+
+def swInDomain (calls : List SwCall) (s : RefSW) : Bool := s.runOK (calls.map toRefCall)
 
 def hSw : List String → String → Res
   | [off, n, calls], impl => do
@@ -233,11 +228,10 @@ def hSizeOf : List String → String → Res
     let top ← if tree = "N" then some none else match pVal tree.toList with
       | some (g, []) => some (some g)
       | _ => none
-    let model := match sizeOfTop top with
-      | none => "PANIC"
-      | some n => match top with
-        | none => s!"{n},nil"
-        | some _ => s!"{n},{n}"
+    let model := match sizeOfTop top, statHeader top with
+      | some n, some none => s!"{n},nil"
+      | some n, some (some m) => s!"{n},{m}"
+      | _, _ => "PANIC"
     let spec := match top with
       | none => "0,nil"
       | some g => if g.supported then s!"{structSize g},{structSize g}" else "PANIC"
